@@ -232,6 +232,9 @@ func NewRec(method string) *Rec {
 func (w *Rec) Header() http.Header { return w.hdr }
 
 func (w *Rec) WriteHeader(code int) {
+	if IOPoint != nil {
+		IOPoint()
+	}
 	if code < 100 || code > 999 {
 		panic(fmt.Sprintf("invalid WriteHeader code %v", code))
 	}
@@ -260,7 +263,7 @@ func bodyAllowed(status int) bool {
 	return true
 }
 
-// IOPoint, when set, is called at the start of every Write and Flush of a Rec and before every operation of the
+// IOPoint, when set, is called at the start of every WriteHeader, Write and Flush of a Rec and before every operation of the
 // probe directive (the E2 harnesses make these scheduling points: I/O is where overlapping requests interleave).
 var IOPoint func()
 
